@@ -496,8 +496,8 @@ class yanny(OrderedDict):
             typ = self.type(structure, variable)
             character_array = re.compile(r'char[\[<]\d*[\]>][\[<]\d*[\]>]')
             if ((character_array.search(typ) is not None) or
-                    (typ.find('char') < 0 and (typ.find('[') >= 0 or
-                                               typ.find('<') >= 0))):
+                    (self.basetype(structure, variable) != 'char' and
+                     (typ.find('[') >= 0 or typ.find('<') >= 0))):
                 cache[variable] = True
             else:
                 cache[variable] = False
@@ -576,7 +576,7 @@ class yanny(OrderedDict):
             The length of the char variable.
         """
         typ = self.type(structure, variable)
-        if typ.find('char') < 0:
+        if self.basetype(structure, variable) != 'char':
             return None
         try:
             return int(typ[typ.rfind('[')+1:typ.rfind(']')])
